@@ -274,7 +274,18 @@ def task(unit):
         if kind == "recv":
             size, avail, waitall, ssl_like = params
             nonterm = DELIVER + RETRY
-            for sc in scripts(maxlen if size else min(1, maxlen), nonterm, TERMINAL):
+            def burst_scripts():
+                # beyond the length bound of the exhaustive part: long runs of retryable errors (any retry budget or back-off table
+                # that runs out shows here), before the first byte, between two fragments, and both
+                if size < 2:
+                    return
+                for n in (8, 9, 10, 16, 33, 64):
+                    for e in RETRY[:2]:
+                        yield (e,) * n
+                        yield (("k", "1"),) + (e,) * n
+                        yield (e,) * (n // 2) + (("k", "1"),) + (e,) * (n - n // 2)
+                        yield (("k", "1"),) + (e,) * n + (("eof",),)
+            for sc in itertools.chain(scripts(maxlen if size else min(1, maxlen), nonterm, TERMINAL), burst_scripts()):
                 oc = check_recv(size, avail, waitall, ssl_like, sc, V, st, errors, socketutil)
                 st.executions += 1
                 k = "recv:%s:%s" % (oc[0], oc[1])
@@ -290,7 +301,15 @@ def task(unit):
             else:
                 nonterm = [("k", "1"), ("k", "2"), ("k", "half"), ("k", "n-1"), ("k", "all"), ("k", "0")] + RETRY
                 term = FATAL + [("timeout",)]
-            for sc in scripts(maxlen, nonterm, term):
+            def send_bursts():
+                if blocking or n < 2:
+                    return
+                for k in (8, 9, 10, 16, 33, 64):
+                    for e in RETRY[:2]:
+                        yield (e,) * k
+                        yield (("k", "1"),) + (e,) * k
+                        yield (("k", "1"),) + (e,) * k + (FATAL[0],)
+            for sc in itertools.chain(scripts(maxlen, nonterm, term), send_bursts()):
                 oc = check_send(n, blocking, sc, V, st, errors, socketutil, as_type)
                 st.executions += 1
                 k = "send:%s:%s" % (oc[0], oc[1])
@@ -338,7 +357,7 @@ def run(ctx):
         total,
         rule="every script (up to the stated length, then faithful delivery) of per-call socket behaviours {deliver 1/2/half/n-1/all asked bytes, "
              "EINTR, EAGAIN/EWOULDBLOCK, EINPROGRESS, ECONNRESET, EBADF, socket.timeout, EOF} for receive_data over sizes {0,1,2,3,7,60000,60001,120001}, "
-             "streams that end early/exactly/late, MSG_WAITALL on/off, sockets in timeout mode and in blocking mode (gettimeout() None) and an ssl-like socket; and of {partial write 0/1/2/half/n-1/all, retryable, "
+             "streams that end early/exactly/late, MSG_WAITALL on/off, plus bursts of 8-64 consecutive retryable errors before / between fragments; sockets in timeout mode and in blocking mode (gettimeout() None) and an ssl-like socket; and of {partial write 0/1/2/half/n-1/all, retryable, "
              "fatal, timeout} for send_data in blocking and timeout mode with bytes/bytearray/memoryview buffers; distinct = (operation, result class, "
              "terminal event) classes",
         extra={"units": len(us)})
